@@ -1,27 +1,37 @@
-(* L5: lock discipline.  Statements over Lock / Unlock / Read loc / Write loc / Local with sequence, choice, loops,
+(* L5: lock discipline (sync.Mutex and sync.RWMutex).  Statements over Lock / Unlock / RLock / RUnlock / Read loc / Write loc / Local with sequence, choice, loops,
    return and (inlined) calls; paths; the static check (abstract interpretation of the "lock held" flag).
    The emulator's methods are rendered in this language by the translator (Gen/EmuSkeleton.v).  Definitions only. *)
 From Coq Require Import List Bool.
 Import ListNotations.
 
 Inductive loc := Mode | Conf.
-Inductive action := ALock | AUnlock | ARd (x : loc) | AWr (x : loc) | ALocal | APort.   (* APort: a write to the emulator's port *)
+(* APort: a write to the emulator's port.  ARLock / ARUnlock: the read side of a sync.RWMutex *)
+Inductive action := ALock | AUnlock | ARLock | ARUnlock | ARd (x : loc) | AWr (x : loc) | ALocal | APort.
 
-(* every access inside a critical section, lock balanced *)
-Fixpoint ok (h : bool) (l : list action) : bool :=
+(* what a thread holds: nothing, the read lock, the write lock *)
+Inductive hmode := HN | HR | HW.
+Definition hm_eqb (a b : hmode) : bool :=
+  match a, b with HN, HN | HR, HR | HW, HW => true | _, _ => false end.
+
+(* every read inside a (read or write) critical section, every write inside a write critical section, lock balanced *)
+Fixpoint ok (h : hmode) (l : list action) : bool :=
   match l with
   | [] => true
-  | ALock :: l' => if h then false else ok true l'
-  | AUnlock :: l' => if h then ok false l' else false
-  | ARd _ :: l' | AWr _ :: l' => h && ok h l'
+  | ALock :: l' => match h with HN => ok HW l' | _ => false end
+  | AUnlock :: l' => match h with HW => ok HN l' | _ => false end
+  | ARLock :: l' => match h with HN => ok HR l' | _ => false end
+  | ARUnlock :: l' => match h with HR => ok HN l' | _ => false end
+  | ARd _ :: l' => match h with HN => false | _ => ok h l' end
+  | AWr _ :: l' => match h with HW => ok h l' | _ => false end
   | ALocal :: l' | APort :: l' => ok h l'
   end.
 
-Fixpoint final (h : bool) (l : list action) : bool :=
+Fixpoint final (h : hmode) (l : list action) : hmode :=
   match l with
   | [] => h
-  | ALock :: l' => final true l'
-  | AUnlock :: l' => final false l'
+  | ALock :: l' => final HW l'
+  | AUnlock :: l' | ARUnlock :: l' => final HN l'
+  | ARLock :: l' => final HR l'
   | _ :: l' => final h l'
   end.
 
@@ -42,15 +52,24 @@ Inductive path : stmt -> list action -> bool -> Prop :=
 | p_call s l r : path s l r -> path (Call s) l false.
 
 (* abstract interpretation: None = discipline violated on some path; Some None = every path returns;
-   Some (Some h') = paths that fall through do so with held = h'.  A return requires the lock not to be held. *)
-Fixpoint check (s : stmt) (h : bool) : option (option bool) :=
+   Some (Some h') = paths that fall through do so holding h'.  A return requires nothing to be held. *)
+Definition act_check (a : action) (h : hmode) : option hmode :=
+  match a, h with
+  | ALock, HN => Some HW
+  | AUnlock, HW => Some HN
+  | ARLock, HN => Some HR
+  | ARUnlock, HR => Some HN
+  | ARd _, HR | ARd _, HW => Some h
+  | AWr _, HW => Some h
+  | ALocal, _ | APort, _ => Some h
+  | _, _ => None
+  end.
+
+Fixpoint check (s : stmt) (h : hmode) : option (option hmode) :=
   match s with
   | Skip => Some (Some h)
-  | Act ALock => if h then None else Some (Some true)
-  | Act AUnlock => if h then Some (Some false) else None
-  | Act (ARd _) | Act (AWr _) => if h then Some (Some h) else None
-  | Act ALocal | Act APort => Some (Some h)
-  | Ret => if h then None else Some None
+  | Act a => option_map Some (act_check a h)
+  | Ret => match h with HN => Some None | _ => None end
   | Seq a b => match check a h with
                | None => None
                | Some None => Some None
@@ -58,37 +77,44 @@ Fixpoint check (s : stmt) (h : bool) : option (option bool) :=
                end
   | Choice a b => match check a h, check b h with
                   | Some None, r | r, Some None => r
-                  | Some (Some h1), Some (Some h2) => if Bool.eqb h1 h2 then Some (Some h1) else None
+                  | Some (Some h1), Some (Some h2) => if hm_eqb h1 h2 then Some (Some h1) else None
                   | _, _ => None
                   end
   | Loop a => match check a h with
               | None => None
               | Some None => Some (Some h)
-              | Some (Some h1) => if Bool.eqb h1 h then Some (Some h) else None
+              | Some (Some h1) => if hm_eqb h1 h then Some (Some h) else None
               end
   | Call s => match check s h with
               | None => None
-              | Some None => Some (Some false)
-              | Some (Some h1) => if h1 then None else Some (Some false)
+              | Some None => Some (Some HN)
+              | Some (Some h1) => match h1 with HN => Some (Some HN) | _ => None end
               end
   end.
 
 Definition disciplined (s : stmt) : bool :=
-  match check s false with Some None | Some (Some false) => true | _ => false end.
+  match check s HN with Some None | Some (Some HN) => true | _ => false end.
 
-(* interleaving semantics: any number of threads *)
-Record thread := { todo : list action; held : bool }.
+(* interleaving semantics: any number of threads; the write lock excludes everybody, read locks exclude the writer *)
+Record thread := { todo : list action; held : hmode }.
 Record gstate := { threads : nat -> thread; holder : option nat }.
 
 Definition upd (f : nat -> thread) (i : nat) (x : thread) : nat -> thread :=
   fun j => if Nat.eqb j i then x else f j.
 
+Definition is_lock_op (a : action) : bool :=
+  match a with ALock | AUnlock | ARLock | ARUnlock => true | _ => false end.
+
 Inductive step : gstate -> gstate -> Prop :=
-| s_lock i l st : todo (threads st i) = ALock :: l -> holder st = None ->
-    step st {| threads := upd (threads st) i {| todo := l; held := true |}; holder := Some i |}
+| s_lock i l st : todo (threads st i) = ALock :: l -> holder st = None -> (forall j, held (threads st j) <> HR) ->
+    step st {| threads := upd (threads st) i {| todo := l; held := HW |}; holder := Some i |}
 | s_unlock i l st : todo (threads st i) = AUnlock :: l ->
-    step st {| threads := upd (threads st) i {| todo := l; held := false |}; holder := None |}
-| s_other i a l st : todo (threads st i) = a :: l -> a <> ALock -> a <> AUnlock ->
+    step st {| threads := upd (threads st) i {| todo := l; held := HN |}; holder := None |}
+| s_rlock i l st : todo (threads st i) = ARLock :: l -> holder st = None ->
+    step st {| threads := upd (threads st) i {| todo := l; held := HR |}; holder := None |}
+| s_runlock i l st : todo (threads st i) = ARUnlock :: l ->
+    step st {| threads := upd (threads st) i {| todo := l; held := HN |}; holder := holder st |}
+| s_other i a l st : todo (threads st i) = a :: l -> is_lock_op a = false ->
     step st {| threads := upd (threads st) i {| todo := l; held := held (threads st i) |}; holder := holder st |}.
 
 Inductive reachable (s0 : gstate) : gstate -> Prop :=
@@ -104,8 +130,9 @@ Definition race (st : gstate) : Prop :=
     todo (threads st i) = a :: la /\ todo (threads st j) = b :: lb /\
     access a = Some (x, wa) /\ access b = Some (x, wb) /\ (wa || wb = true).
 
-(* two different threads are both inside a critical section *)
-Definition overlap (st : gstate) : Prop := exists i j, i <> j /\ held (threads st i) = true /\ held (threads st j) = true.
+(* a thread is inside a write critical section while another is inside any critical section *)
+Definition overlap (st : gstate) : Prop :=
+  exists i j, i <> j /\ held (threads st i) = HW /\ held (threads st j) <> HN.
 
 Definition initial (code : nat -> list action) : gstate :=
-  {| threads := fun i => {| todo := code i; held := false |}; holder := None |}.
+  {| threads := fun i => {| todo := code i; held := HN |}; holder := None |}.
